@@ -53,9 +53,49 @@ pub struct CmdCase {
     pub headers: Vec<CmdHdr>,
     /// (step 1 or 2, deviation); None = faithful echoes
     pub dev: Option<(u8, Deviation)>,
+    /// the headers are not closed with finish_header(): the builder starts a new header by itself whenever the control
+    /// type or the index width changes (adjacent headers of one kind merge)
+    #[serde(default)]
+    pub implicit: bool,
 }
 
-fn build_commands(hs: &[CmdHdr]) -> CommandHeaders {
+/// the objects the user asked for, in order, as (group, variation, two-octet index?, index, object octets): reference
+/// encoding per IEEE 1815 (CROB: code, count, on, off, status; analog outputs: value little-endian, status)
+fn requested_objects(hs: &[CmdHdr]) -> Vec<(u8, u8, bool, u32, Vec<u8>)> {
+    let mut out = vec![];
+    for h in hs {
+        for (idx, p) in &h.objs {
+            let index = if h.two_byte { *idx as u32 } else { (*idx as u8) as u32 };
+            let (g, v, data): (u8, u8, Vec<u8>) = match h.kind {
+                0 => (12, 1, ra::crob(if p % 2 == 0 { 3 } else { 4 }, 1, 100 + *p as u32, 10, 0)),
+                1 => {
+                    let mut d = (*p as i32 * 1000 - 5).to_le_bytes().to_vec();
+                    d.push(0);
+                    (41, 1, d)
+                }
+                2 => {
+                    let mut d = (*p as i16 * 100 - 5).to_le_bytes().to_vec();
+                    d.push(0);
+                    (41, 2, d)
+                }
+                3 => {
+                    let mut d = (*p as f32 * 0.5).to_le_bytes().to_vec();
+                    d.push(0);
+                    (41, 3, d)
+                }
+                _ => {
+                    let mut d = (*p as f64 * 0.25).to_le_bytes().to_vec();
+                    d.push(0);
+                    (41, 4, d)
+                }
+            };
+            out.push((g, v, h.two_byte, index, data));
+        }
+    }
+    out
+}
+
+fn build_commands(hs: &[CmdHdr], implicit: bool) -> CommandHeaders {
     let mut b = CommandBuilder::new();
     for h in hs {
         for (idx, p) in &h.objs {
@@ -97,7 +137,9 @@ fn build_commands(hs: &[CmdHdr]) -> CommandHeaders {
                 (_, true) => b.add_u16(Group41Var4::new(*p as f64 * 0.25), *idx),
             }
         }
-        b.finish_header();
+        if !implicit {
+            b.finish_header();
+        }
     }
     b.build()
 }
@@ -245,8 +287,9 @@ impl Prop for Commands {
             any::<bool>(),
             proptest::collection::vec(hdr, 1..=3),
             proptest::option::weighted(0.85, (1u8..=2, dev)),
+            any::<bool>(),
         )
-            .prop_map(|(sbo, headers, dev)| CmdCase { sbo, headers, dev })
+            .prop_map(|(sbo, headers, dev, implicit)| CmdCase { sbo, headers, dev, implicit })
             .boxed()
     }
     fn run(case: &CmdCase) -> CaseOut {
@@ -262,7 +305,10 @@ async fn run_cmd(case: &CmdCase) -> CaseOut {
         .await;
     rig.connect().await;
     let mut h = rig.assocs[&OUT].handle.clone();
-    let cmds = build_commands(&case.headers);
+    let cmds = build_commands(&case.headers, case.implicit);
+    if case.implicit && case.headers.len() >= 2 {
+        out.label("headers_closed_by_the_builder");
+    }
     let mode = if case.sbo {
         CommandMode::SelectBeforeOperate
     } else {
@@ -319,6 +365,27 @@ async fn run_cmd(case: &CmdCase) -> CaseOut {
                     req.func
                 ),
             ));
+            break;
+        }
+        // what goes out is what was asked for: every requested object, in order, in the requested encoding
+        let on_wire: Vec<(u8, u8, bool, u32, Vec<u8>)> = ra::walk(req.func, &req.objects)
+            .unwrap_or_default()
+            .into_iter()
+            .flat_map(|h| {
+                let (g, v, wide) = (h.g, h.v, h.q == 0x28);
+                h.objects.into_iter().map(move |o| (g, v, wide, o.index.unwrap_or(0), o.data))
+            })
+            .collect();
+        let asked = requested_objects(&case.headers);
+        if on_wire != asked {
+            let at = on_wire.iter().zip(asked.iter()).position(|(a, b)| a != b).unwrap_or(on_wire.len().min(asked.len()));
+            out.fail(
+                Fail::new(
+                    "request-differs-from-what-was-asked",
+                    format!("step {step}: {} objects requested, {} on the wire; first difference at object #{at}: asked {:?}, sent {:?}", asked.len(), on_wire.len(), asked.get(at), on_wire.get(at)),
+                )
+                .with_sig("C16 request-differs-from-what-was-asked"),
+            );
             break;
         }
         match &first {
@@ -893,6 +960,21 @@ async fn judge_outcomes(
             // completion is signalled when the last block arrived (before the file is closed): steps 0..=2 answered
             let want =
                 case.reader_abort == 0 && (case.fault == FaultKind::None || fault_after >= 3);
+            let word = match case.fault {
+                FaultKind::ReplyLost => Some("ResponseTimeout"),
+                FaultKind::Disable => Some("Disabled"),
+                FaultKind::Disconnect => Some("Link("),
+                _ => None,
+            };
+            if let (false, false, 0, Some(word)) = (completed, want, case.reader_abort, word) {
+                out.label("error_kind_checked");
+                if !terminals[0].contains(word) {
+                    out.fail(
+                        Fail::new("error-does-not-correspond", format!("file read: fault {:?} after step {fault_after} was reported to the reader as {:?}", case.fault, terminals[0]))
+                            .with_sig(format!("C16 error-does-not-correspond file fault={:?}", case.fault)),
+                    );
+                }
+            }
             if completed != want {
                 out.fail(Fail::new("file-reader-outcome", format!("terminal callback {:?}, expected completed={want} (fault {:?} after step {fault_after}, reader_abort {})", terminals[0], case.fault, case.reader_abort)));
             }
@@ -910,6 +992,23 @@ async fn judge_outcomes(
         );
     } else {
         let ok = res[0].1.starts_with("Ok");
+        // "... timeout, disconnect, disable or shutdown yields the corresponding error"
+        let corresponding = match case.fault {
+            FaultKind::ReplyLost => Some("ResponseTimeout"),
+            FaultKind::Disable => Some("Disabled"),
+            FaultKind::Disconnect => Some("Link("),
+            // the in-flight request of a removed association ends when its reply fails to come: not judged
+            FaultKind::RemoveAssociation | FaultKind::None => None,
+        };
+        if let (false, false, Some(word)) = (ok, expect_ok, corresponding) {
+            out.label("error_kind_checked");
+            if !res[0].1.contains(word) {
+                out.fail(
+                    Fail::new("error-does-not-correspond", format!("{name}: fault {:?} after step {fault_after} of {steps} was reported as {}", case.fault, res[0].1))
+                        .with_sig(format!("C16 error-does-not-correspond fault={:?}", case.fault)),
+                );
+            }
+        }
         if ok != expect_ok {
             out.fail(
                 Fail::new(
